@@ -11,7 +11,6 @@ import (
 
 	metav1 "k8s.io/apimachinery/pkg/apis/meta/v1"
 
-	"github.com/np-guard/netpol-analyzer/pkg/logger"
 	"github.com/np-guard/netpol-analyzer/pkg/netpol/connlist"
 	"github.com/np-guard/netpol-analyzer/pkg/netpol/verifshim"
 
@@ -286,7 +285,7 @@ func List(dir string, w *world.World, c *world.Conc, o ListOpts) (obs ListObs, o
 			obs.ErrMsg = fmt.Sprint(r)
 		}
 	}()
-	opts := []connlist.ConnlistAnalyzerOption{connlist.WithLogger(logger.NewDefaultLoggerWithVerbosity(logger.LowVerbosity)),
+	opts := []connlist.ConnlistAnalyzerOption{connlist.WithLogger(Quiet{}),
 		connlist.WithMuteErrsAndWarns()}
 	if o.Exposure {
 		opts = append(opts, connlist.WithExposureAnalysis())
